@@ -72,7 +72,7 @@ def corpus(tier):
 def kern_view(t):
     try:
         tok = kp.KernSpineImporter().import_token(t)
-        return tok.category.name, tok.export()
+        return tok.category.name, tok.export(), bool(getattr(tok, 'hidden', False))
     except Exception:
         return None
 
@@ -91,8 +91,9 @@ def _job(job):
         try:
             tok = kp.createImporter(header).import_token(t)
             got = (tok.category.name, tok.export())
+            hidden = bool(getattr(tok, 'hidden', False))
             tok2 = imp_shared.import_token(t)
-            if (tok2.category.name, tok2.export()) != got:
+            if (tok2.category.name, tok2.export()) != got or bool(getattr(tok2, 'hidden', False)) != hidden:
                 acc.violation(Viol('importer-history', 'outcome-depends-on-tokens-parsed-before', dict(case, slice=[lo, hi], tier=tier), got, (tok2.category.name, tok2.export())))
         except Exception as e:  # noqa
             acc.violation(Viol('any-cell', 'import-of-the-cell-raises', case, 'a token', f'{type(e).__name__}: {str(e)[:80]}'))
@@ -105,15 +106,15 @@ def _job(job):
             exp = (kind, barline_export(t) if kind == 'BARLINES' else t)
             if got != exp:
                 acc.violation(Viol('shared-structure', 'not-recognised-as-in-a-kern-spine', case, exp, got))
-            elif kv is not None and kv != got:
-                acc.violation(Viol('shared-structure', 'differs-from-the-kern-spine-result', case, kv, got))
+            elif kv is not None and (kv[:2] != got or kv[2] != hidden):
+                acc.violation(Viol('shared-structure', 'differs-from-the-kern-spine-result', case, kv, got + (hidden,)))
         else:
             exp = (own, t)
             if got == exp:
                 continue
             if KEY_DESIGNATION.match(t) and got == ('KEY_TOKEN', t):
                 continue        # the documentation leaves the category of key designations open (DESIGN §2.1)
-            if got[0] in STRUCT_CATS and t.startswith(got[1]) and got[1] != t or (got[0] == 'BARLINES' and kv == got):
+            if got[0] in STRUCT_CATS and t.startswith(got[1]) and got[1] != t or (got[0] == 'BARLINES' and kv is not None and kv[:2] == got):
                 # kernpy recognised shared structure from a PREFIX of the text (class tracked under C12 as well)
                 acc.violation(Viol('trailing-characters-after-valid-token', 'shared-structure-recognised-from-a-prefix-and-text-lost', case, exp, got))
             else:
